@@ -12,9 +12,9 @@ package interpreter
 //@ func (*programState).pushSender
 //@   requires [nonnil] st != nil && monetary != nil
 //@   ensures [zero-dropped] {C02} val(monetary) == 0 ==> st.Senders == old(st.Senders)
-//@   ensures [appended] {C02,C04} val(monetary) != 0 ==> len(st.Senders) == old(len(st.Senders)) + 1
-//@   ensures [appended-last] {C02,C04} val(monetary) != 0 ==> st.Senders[old(len(st.Senders))].Name == name && st.Senders[old(len(st.Senders))].Monetary == monetary
-//@   ensures [prefix-kept] {C02,C04} val(monetary) != 0 ==> forall(j, 0, old(len(st.Senders)), st.Senders[j] == old(st.Senders[j]))
+//@   ensures [appended] {C02,C04,C07} val(monetary) != 0 ==> len(st.Senders) == old(len(st.Senders)) + 1
+//@   ensures [appended-last] {C02,C04,C07} val(monetary) != 0 ==> st.Senders[old(len(st.Senders))].Name == name && st.Senders[old(len(st.Senders))].Monetary == monetary
+//@   ensures [prefix-kept] {C02,C04,C07} val(monetary) != 0 ==> forall(j, 0, old(len(st.Senders)), st.Senders[j] == old(st.Senders[j]))
 //@   ensures [amounts-untouched] {C02,C11} heapsame(bigint)
 //@   ensures [queue-owned] {C11} sendersOwned(st)
 //@   modifies st.Senders
@@ -22,9 +22,9 @@ package interpreter
 //@ func (*programState).pushReceiver
 //@   requires [nonnil] st != nil && monetary != nil
 //@   ensures [zero-dropped] {C02} val(monetary) == 0 ==> st.Receivers == old(st.Receivers)
-//@   ensures [appended] {C02,C05} val(monetary) != 0 ==> len(st.Receivers) == old(len(st.Receivers)) + 1
-//@   ensures [appended-last] {C02,C05} val(monetary) != 0 ==> st.Receivers[old(len(st.Receivers))].Name == name && st.Receivers[old(len(st.Receivers))].Monetary == monetary
-//@   ensures [prefix-kept] {C02,C05} val(monetary) != 0 ==> forall(j, 0, old(len(st.Receivers)), st.Receivers[j] == old(st.Receivers[j]))
+//@   ensures [appended] {C02,C05,C07} val(monetary) != 0 ==> len(st.Receivers) == old(len(st.Receivers)) + 1
+//@   ensures [appended-last] {C02,C05,C07} val(monetary) != 0 ==> st.Receivers[old(len(st.Receivers))].Name == name && st.Receivers[old(len(st.Receivers))].Monetary == monetary
+//@   ensures [prefix-kept] {C02,C05,C07} val(monetary) != 0 ==> forall(j, 0, old(len(st.Receivers)), st.Receivers[j] == old(st.Receivers[j]))
 //@   ensures [amounts-untouched] {C02,C11} heapsame(bigint)
 //@   ensures [queue-owned] {C11} receiversOwned(st)
 //@   modifies st.Receivers
@@ -398,6 +398,10 @@ package interpreter
 //@     assert [step-cells] known(st, posting.Source, posting.Asset) && known(st, posting.Destination, posting.Asset) && st.CachedBalances[posting.Source][posting.Asset] == srcBalance && st.CachedBalances[posting.Destination][posting.Asset] == destBalance
 //@     assert [step-known] forallstr(a, c, athead(known(st, a, c)) ==> known(st, a, c) && st.CachedBalances[a][c] == athead(st.CachedBalances[a][c]))
 //@     assert [step-new] forallstr(a, c, known(st, a, c) && !athead(known(st, a, c)) ==> (a == posting.Source || a == posting.Destination) && c == posting.Asset)
+//@     assert [step-debits-source] {C04,C08} forallstr(s, d, c, s == posting.Source && d == posting.Destination && c == posting.Asset && s != d ==> bal(st, s, c) == athead(bal(st, s, c)) - val(posting.Amount))
+//@     assert [step-credits-destination] {C04,C08} forallstr(s, d, c, s == posting.Source && d == posting.Destination && c == posting.Asset && s != d ==> bal(st, d, c) == athead(bal(st, d, c)) + val(posting.Amount))
+//@     assert [step-self-posting-neutral] {C04,C08} forallstr(s, c, s == posting.Source && s == posting.Destination && c == posting.Asset ==> bal(st, s, c) == athead(bal(st, s, c)))
+//@     assert [step-other-accounts] {C04,C08} forallstr(a, c, a != posting.Source && a != posting.Destination && c == posting.Asset ==> bal(st, a, c) == athead(bal(st, a, c)))
 //@     assert [step-others] forallstr(a, c, known(st, a, c) && st.CachedBalances[a][c] != srcBalance && st.CachedBalances[a][c] != destBalance ==> bal(st, a, c) == athead(bal(st, a, c)))
 //@     assert [apply-step] {C01,C09} forallstr(a, c, bal(st, a, c) == athead(bal(st, a, c)) - ite(a == posting.Source && c == posting.Asset, val(posting.Amount), 0) + ite(a == posting.Destination && c == posting.Asset, val(posting.Amount), 0))
 
@@ -647,6 +651,7 @@ package interpreter
 //@   requires [state] storeOk(s)
 //@   ensures [store-error-surfaces] {C12} err != nil ==> typeis(err, QueryBalanceError) && result == nil
 //@   ensures [cell] {C01,C09,C10} err == nil ==> result != nil && known(s, account, asset) && s.CachedBalances[account][asset] == result
+//@   ensures [asked-before-used] {C01,C10} err == nil && account != "world" && !old(known(s, account, asset)) ==> val(result) == storeBal(account, asset)
 //@   ensures [nothing-forgotten] {C01,C09,C10,C11} cacheGrew(s) && heapsame(bigint) && innerGrew(s)
 //@   ensures [query-map] s.CurrentBalanceQuery == old(s.CurrentBalanceQuery) || fresh(ref(s.CurrentBalanceQuery))
 //@   ensures [state-ok] queryOk(s) && cacheOk(s) && cacheOwned(s) && s.Store != nil && !has(s.CurrentBalanceQuery, "world")
